@@ -621,7 +621,9 @@ static int serializeRaw(const KSI_TLV *tlv, unsigned char *buf, size_t buf_size,
 			KSI_pushError(tlv->ctx, res = KSI_INVALID_ARGUMENT, NULL);
 			goto cleanup;
 		}
-		memcpy(buf + buf_size - payloadLength, tlv->datap, payloadLength);
+		if (payloadLength > 0) {
+			memcpy(buf + buf_size - payloadLength, tlv->datap, payloadLength);
+		}
 	}
 
 	*buf_len = payloadLength;
